@@ -255,8 +255,10 @@ def gen_str_elem(rng, what, stag='<', etag='>'):
     r = rng.random()
     if r < 0.25:
         return ('S', base)
-    if r < 0.35:
+    if r < 0.33:
         return ('S', wrap_tags(base, stag, etag))
+    if r < 0.35:
+        return ('S', wrap_tags(wrap_tags(base, stag, etag), stag, etag))      # wrapped twice: the inner text keeps one pair
     if r < 0.5:
         # tagged regex over the whole value
         return ('S', wrap_tags(_seg_regex(rng, base).replace(stag, '').replace(etag, ''), stag, etag))
@@ -290,8 +292,11 @@ def gen_policy(rng, uid, inq, kind, stag='<', etag='>', effect=None, hit=None):
     hit = rng.random() < 0.6 if hit is None else hit
     p = {'uid': uid, 'desc': pick(rng, [None, 'desc %s' % (uid,), '', "it's"]), 'stag': stag, 'etag': etag}
     if effect is None:
-        effect = pick(rng, ['allow'] * 12 + ['deny'] * 4 + ['ALLOW', 'Allow', ' allow', 'allow ', None, '', 0, 1, True,
-                                                             'permit'])
+        # junk: case variants, padded, fragments and extensions of the two constants, other types
+        x = rng.random()
+        effect = 'allow' if x < 0.46 else 'deny' if x < 0.62 else \
+            pick(rng, ['ALLOW', 'Allow', ' allow', 'allow ', None, '', 0, 1, True, 'permit', 'a', 'all', 'allo', 'low', 'llo',
+                       'w', 'allowed', 'allowdeny', 'den', 'y', 'denyallow', 'allow\n'])
     p['effect'] = effect
     for fld, key in (('subjects', 'subject'), ('resources', 'resource'), ('actions', 'action')):
         what = inq[key]
